@@ -457,6 +457,11 @@ class Forward(Contract):
             return ctx.ghost["result"]
         ctx.callee_contracts[f"{PRJ}.Project.{self.fn}"] = stub
         ctx.ghost["result"] = Tok("result")
+        # whatever a wrapper asks the file system about its argument: some answer; whatever it derives from it: another value
+        for f in (os.path.isdir, os.path.isfile, os.path.exists, os.path.islink, os.path.isabs):
+            ctx.externals[f] = lambda interp, p_, f=f: SBool(z3.Bool(interp.ex.fresh_name(f.__name__)))
+        for f in (os.path.dirname, os.path.abspath, os.path.realpath, os.path.normpath, os.path.expanduser, os.path.basename):
+            ctx.externals[f] = lambda interp, p_, f=f: Tok(f.__name__ + "-of-argument")
         return ctx
 
     def setup(self, interp, case):
